@@ -58,7 +58,7 @@ def run(run, env, prop, gen_args=(), key_prefix="model-vs-impl", extra_ties=("Pa
     for p in stats.get("panic_list", []) or []:
         run.violation("panic", "implementation panicked: " + p, dict(panic=p))
     for p in stats.get("accessor_mismatches") or []:
-        run.violation("accessor:" + p.split(": ", 1)[-1].split(" = ")[0], "a freshly issued token's accessor does not report what the token says: " + p, dict(mismatch=p))
+        run.violation("accessor:" + p.split(": ", 1)[-1].split(" = ")[0], "an accessor does not report what the token (or authorization) it belongs to says: " + p, dict(mismatch=p))
     ex = stats.get("extra") or {}
     if "direct_violations" in ex:
         for d in ex.get("direct_violations") or []:
